@@ -390,7 +390,21 @@ def g_level(ck: Check, rule: str) -> None:
               f"Nodes below it stay unexplored although the expansion reports completion", key="node-level skips")
         for n in ast.walk(loop):
             if isinstance(n, ast.Break) and fm.cfg.enclosing_loops(fm.cfgn(n))[0] is loop:
-                ck.ob(rule, fm, n, False, "`break` abandons the remaining nodes of the level")
+                # leaving the level early is fine when the driver then reports failure: no feasible path back into the loop,
+                # and every return that is reachable without re-entering it is `return False`
+                bn = fm.cfgn(n)
+                # start at the branch that leads to the break, so that assignments made just before it count
+                st_b = next((d_ for d_ in fm.cfg.dominators(bn) if d_.kind == "branch" and d_.test is not None), None)
+                if st_b is not None and bn.id in fm.cfg.reach_avoiding(st_b, [hdr]):
+                    bn = st_b
+                back = paths_imply(fm, bn, hdr, logic.FALSE, None, canon=True)
+                reach = fm.cfg.reach_avoiding(bn, [hdr])
+                rets_ok = all(is_false(x.ast.value) for x in (fm.cfg.nodes[i] for i in reach)
+                              if x.kind == "stmt" and isinstance(x.ast, ast.Return) and
+                              paths_imply(fm, bn, x, logic.FALSE, None, canon=True, stop={hdr.id}) is not None)
+                okb = back is None and rets_ok
+                ck.ob(rule, fm, n, okb, "the level is left early only to report failure" if okb else
+                      "`break` abandons the remaining nodes of the level")
         # (2) enqueueing of the successors
         if key.endswith("expand_source_blocks"):
             continue  # which successors enter the next level is the block choice (rule B)
@@ -678,6 +692,40 @@ def blocks(ck: Check, rule: str) -> None:
             probs.append("every block must be compared with every block")
         if ast.dump(comp.elt) != ast.dump(g0.target).replace("Store()", "Load()"):
             probs.append("the kept blocks are not the blocks themselves")
+    # spelling (iv): a loop over the blocks with `if not any(other < block for other, _ in blocks): collect`
+    if not found:
+        for iff in [n for n in own_walk(f.node) if isinstance(n, ast.If)]:
+            c, neg = iff.test, False
+            while isinstance(c, ast.UnaryOp) and isinstance(c.op, ast.Not):
+                c, neg = c.operand, not neg
+            q = logic.quantifier(c)
+            if q is None:
+                continue
+            pos, it2, var2, cond2 = q
+            pos = pos != neg
+            if not (isinstance(cond2, ast.Compare) and len(cond2.ops) == 1 and isinstance(cond2.ops[0], (ast.Lt, ast.LtE, ast.Gt, ast.GtE))
+                    and isinstance(cond2.left, ast.Name) and isinstance(cond2.comparators[0], ast.Name)):
+                continue
+            lps_ = [l for l in fm.cfg.enclosing_loops(fm.cfgn(iff.test)) if isinstance(l, ast.For)]
+            if not lps_:
+                continue
+            found = True
+            anchor = iff
+            outer_t = first_name(lps_[0].target)
+            inner_t = var2 if isinstance(var2, str) else first_name(var2)
+            # the branch that collects the block
+            coll_body = iff.body if not pos else iff.orelse
+            app = [x for st_ in coll_body for x in ast.walk(st_) if isinstance(x, ast.Call) and isinstance(x.func, ast.Attribute)
+                   and x.func.attr == "append" and x.args and isinstance(x.args[0], ast.Tuple) and x.args[0].elts
+                   and text(x.args[0].elts[0]) == outer_t]
+            other_app = [x for st_ in (iff.orelse if not pos else iff.body) for x in ast.walk(st_) if isinstance(x, ast.Call)
+                         and isinstance(x.func, ast.Attribute) and x.func.attr == "append"]
+            if not strict_sub(cond2, inner_t, outer_t) or not app or other_app:
+                probs.append(f"a block is kept when `{'' if pos else 'not '}any({text(cond2)} ...)` does not hold as expected; expected: "
+                             f"kept iff no other block is a strict subset of it (`not any(other < block ...)`)")
+            if text(it2) != text(lps_[0].iter):
+                probs.append("every block must be compared with every block")
+            break
     # spelling (i)
     tests = []
     if not found:
@@ -687,6 +735,28 @@ def blocks(ck: Check, rule: str) -> None:
                 lp = [l for l in fm.cfg.enclosing_loops(fm.cfgn(n)) if isinstance(l, ast.For)]
                 if len(lp) >= 2 and {first_name(lp[0].target), first_name(lp[1].target)} == {n.left.id, n.comparators[0].id}:
                     tests.append(n)
+    if not found and len(tests) == 1:
+        t = tests[0]
+        lp0 = [l for l in fm.cfg.enclosing_loops(fm.cfgn(t)) if isinstance(l, ast.For)]
+        inner_l = lp0[0]
+        par_if = f.parents.get(t)
+        if inner_l.orelse and isinstance(par_if, ast.If) and par_if.test is t and len(inner_l.body) == 1 and inner_l.body[0] is par_if \
+                and not par_if.orelse and any(isinstance(x, ast.Break) for x in par_if.body):
+            # spelling (iii): the inner loop breaks on a strict subset; the block is collected in the loop's else clause
+            found = True
+            anchor = t
+            outer_t, inner_t = first_name(lp0[1].target), first_name(lp0[0].target)
+            if not strict_sub(t, inner_t, outer_t):
+                probs.append(f"a block is dropped when `{text(t)}`; expected: when another block is a strict subset of it "
+                             f"(`other < block`). With a non-strict or reversed test, minimal blocks are discarded or dependent "
+                             f"blocks are kept")
+            app = [x for st_ in inner_l.orelse for x in ast.walk(st_) if isinstance(x, ast.Call) and isinstance(x.func, ast.Attribute)
+                   and x.func.attr == "append" and x.args and isinstance(x.args[0], ast.Tuple) and x.args[0].elts
+                   and text(x.args[0].elts[0]) == outer_t]
+            if not app or any(isinstance(x, ast.If) for st_ in inner_l.orelse for x in ast.walk(st_)):
+                probs.append("minimal blocks are not collected exactly when no strictly smaller block exists")
+            if text(lp0[0].iter) != text(lp0[1].iter):
+                probs.append("every block must be compared with every block")
     if found:
         pass
     elif len(tests) != 1:
@@ -786,15 +856,21 @@ def blocks(ck: Check, rule: str) -> None:
             kinds.append("clean")
             ev_ok = False
             for b_ in fm.cfg.dominators(cn):
-                if b_.kind == "branch" and b_.test is not None and b_.pol and b_.id in fm.cfg.loop_nodes[lp]:
+                if b_.kind == "branch" and b_.test is not None and b_.id in fm.cfg.loop_nodes[lp]:
+                    t_, p_ = c15.strip_not(b_.test, b_.pol)
                     tnode = fm.cfg.nodes[next(iter(fm.cfg.g.predecessors(b_.id)))]
-                    if not c15._is_config_test(fm, b_.test, tnode) and not c15.guard_value_ok(fm, b_.test, tnode, ck.prog):
+                    if p_ and not c15._is_config_test(fm, t_, tnode) and not c15.guard_value_ok(fm, t_, tnode, ck.prog):
                         ev_ok = True
             if not ev_ok:
                 probs.append("a block is chosen without being known clean")
             continue
         if isinstance(S0, ast.Call) and callee_name(S0) == "_ensure_node":
             continue  # children created by the source shortcut (rule G)
+        if isinstance(S, ast.Name):
+            adds = [c_ for c_ in own_walk(f.node) if isinstance(c_, ast.Call) and isinstance(c_.func, ast.Attribute)
+                    and c_.func.attr in ("add", "append") and text(c_.func.value) == S.id and c_.args]
+            if adds and all(isinstance(c_.args[0], ast.Call) and callee_name(c_.args[0]) == "_ensure_node" for c_ in adds):
+                continue  # a set of children created by the source shortcut
         probs.append(f"line {x.lineno}: `{text(S)}` enters the next level")
     ok_kinds = {"all", "smallest", "clean"} <= set(kinds)
     ck.ob(rule, fm, f.node, not probs and ok_kinds, "; ".join(probs) if probs else
